@@ -128,6 +128,12 @@ def cases(tier, seed):
             cs.append({'gen': 'matvec', 'routine': 'fast_matvec', 'M': M, 'N': N, 'RA': gens.rank_profile(rng, d, 'rand', 4), 'RB': gens.rank_profile(rng, d, 'rand', 4), 'RG': gens.rank_profile(rng, d, 'rand', 4),
                        'eps': 10 ** rng.uniform(-11, -2), 'guess': ['none', 'user'][(i + j) % 2], 'vals': ['gauss', 'decay'][i % 2], 'vseed': rng.randrange(2 ** 40), 'sidx': j,
                        'dtype': 'c128' if i % 3 == 2 else 'f64', 'scale': [1.0, 1.0, 1e-8, 1e4, 1e-15][(i // 2) % 5]})
+    # tall supercores with a long spectrum at tight eps: rank-4 operands whose bond weights span twelve orders (deep4), larger modes in front of a small last mode
+    for i in range(10 if not T else 60):
+        M = [[6, 6, 4], [5, 6, 6, 4], [6, 6, 2], [6, 6, 6, 3], [6, 5, 1]][i % 5]
+        for j in range(k):
+            cs.append({'gen': 'matvec', 'routine': 'fast_matvec', 'M': M, 'N': list(M), 'RA': [1] + [4] * (len(M) - 1) + [1], 'RB': [1] + [4] * (len(M) - 1) + [1], 'RG': [1] + [2] * (len(M) - 1) + [1],
+                       'eps': [1e-12, 1e-11][(i // 5) % 2], 'guess': ['none', 'user'][(i + j) % 2], 'vals': 'deep4', 'vseed': rng.randrange(2 ** 40), 'sidx': j, 'dtype': ['f64', 'c128'][i % 2], 'scale': 1.0})
     # exhausted sweep budgets (nswp=1,2): the final-sweep branch of the C++ DMRG loop is reached only here. The accuracy/agreement contracts are about the default budget,
     # so only acceptance, shape, well-formedness and finiteness are judged (and the sanitizer pass sees this branch); the two errors are recorded as observations
     for i in range(12 if not T else 80):
